@@ -1,8 +1,28 @@
-HOOK_COMMITS = []
+HOOK_COMMITS = ["656d28a"]
 NOTES = ("Every check: TLC enumerates / model-checks the TLA+ spec, a neutral Go harness runs the real code of /repo's working tree "
          "on the generated cases (or records traces), and a TLA+ Judge evaluated by TLC is the only oracle. exit 2 = infrastructure problem.")
 NOT_APPLICABLE = {}
+PBF_NOTE = ("Trusts: the hook placement (one Model action between two yield points; local work only in between), the "
+            "deterministic scheduler's enabledness rules (Go channel semantics), the independent mini PBF writer, TLC. "
+            "Exhaustive only within the stated constants; larger decoder counts and files are sampled.")
 CHECKS = {
+ "C02": dict(
+    technique="TLC model checking of PbfPipeline.tla (all interleavings) + forced replay of TLC behaviours and trace validation of scheduler-recorded runs of the real goroutines (PbfTrace.tla) + RunOK history judge; race detector under jitter",
+    text="Design level: TLC explores every interleaving of reader, N workers, serializer and consumer for N<=3 (4 thorough), queue capacities 0..2(3), 3-5 blocks incl. empty/damaged ones, and checks OrderInv/CompleteInv. Code level: behaviours sampled from the Model are forced step by step through the real goroutines by a token-passing scheduler built on the verif hooks, random-walk schedules (N up to 11/32) are recorded and validated event by event against the Model, and every run's API history is judged by the TLA+ operator RunOK. The data-race clause is decided by the Go race detector on jitter-perturbed runs of the same files.",
+    note=PBF_NOTE),
+ "C06": dict(
+    level="fault_enumeration",
+    technique="fault enumeration driven by PbfPipeline.tla: every byte offset cut + 42 damage classes x block positions x decoder counts, each scan in a child process, judged by TLC (RunOK); error ordering model-checked for all interleavings",
+    text="Every byte offset of generated files is cut and classified structurally (k complete blocks, boundary or not, header intact or not); every damage class the property names is applied at every block position; each case runs the real scanner in a child process so a panic in a library goroutine is observed as outcome 'crash'. TLC judges delivered prefix, nil/non-nil Err and outcome. The Model shows that error pairs cannot overtake data for any interleaving.",
+    note=PBF_NOTE + " Damage the format does not let a reader detect is outside the property."),
+ "C07": dict(
+    technique="TLC model checking of PbfPipeline.tla with Close/cancel at every point incl. liveness (CloseReturns, AllExit) + PbfRace.tla access-level model + trace validation of scheduler runs with scripted/random stops + RunOK history judge; race detector with cancel from a second goroutine",
+    text="Design level: Close and external cancel are enabled at every state of the pipeline Model; TLC checks ReadAheadInv, ErrPrecedenceInv, LaterScansFalse and, under fairness, that Close returns and all goroutines exit; the three deviations of the pinned code are each shown to violate a Judge (non-vacuity). Code level: call histories Header? Scan^k (Close|cancel) (Scan|Err|Close)^<=3 from the spec are run under the deterministic scheduler with an external cancel injected at random steps, validated against PbfTrace and judged by RunOK (later scans false, Err precedence, read-ahead, termination, no leaked goroutine); real-concurrency runs with a cancelling goroutine run under the race detector.",
+    note=PBF_NOTE + " The XML scanner half is covered by the XmlScan trace validation of C03's machinery when present."),
+ "C09": dict(
+    technique="TLC model checking of OffsetInv on PbfPipeline.tla + resume scans at every reported offset of every configuration, judged by TLC (RunOK clauses offsets/resume); offsets bound to the Model in validated traces",
+    text="Design level: OffsetInv (current/previous offset as a function of the block of the last returned object, empty blocks included) for every interleaving, and CompleteInv for header-less configurations (the resume theorem). Code level: for every configuration and decoder count the real scanner is scanned fully, the offsets after every Scan are recorded, and a second scanner is opened at every distinct reported offset; TLC judges that it yields exactly the remaining objects.",
+    note=PBF_NOTE),
  "C18": dict(
     technique="TLC enumerates PolygonRules.tla's tag space exhaustively; real Way.Polygon/Relation.Polygon results judged by TLC against the TLA+ rule table",
     text="Exhaustive over the finite input space defined in PolygonRules.tla (every rule key x every listed/unlisted/empty/'no' value x area classes x closed/length preconditions, all key pairs in the thorough tier): every case is executed on the real code and compared by TLC with the TLA+ transcription of the published table. Right level because the property is a finite table lookup whose failure modes (unsorted list, edited entry, swapped branch) are value-specific.",
